@@ -12,6 +12,7 @@ from ..norm import Normalizer, NormError
 from ..exc import EscapeAnalysis
 from ._kit_c06 import SymExec, ShapedEscapes, txt, parse as P, callable_body, _walk_values, apply_callable, filtered_iter, handler_types, inline_walrus
 from ._kit_c06 import CollView, kind_of_container, views_at_result, container_views_at_result, function_of_fields
+from ._kit_c06 import CUnsupported, CMethod, run_tick, tick_tables, recent_subset_invariant
 
 R = Rules(
     "C06",
@@ -36,10 +37,12 @@ R = Rules(
         "-- Message.copy and Message.__init__ are analysed for the keyword sets and values _extract_block passes (no "
         "Type(None), no URI parsing, no None payload, no left-over keyword that is not an option); (g) TimeoutDict returns "
         "the stored value and raises KeyError for an absent key, refreshes on "
-        "get and set, _tick keeps exactly the recently accessed keys and re-arms iff items remain, and both stores use "
+        "get and set, _tick keeps exactly the recently accessed keys and re-arms iff items remain (decided by its effect: the "
+        "checker's own interpreter runs _tick on every table of up to three stored keys x every set of used keys and compares "
+        "the final state -- entries, pending timers, handle, set of used keys -- with the specification), and both stores use "
         "MAX_TRANSMIT_WAIT (paper step: lifetime in [T, 2T]).  Interleavings of several clients at run time are not decided."
     ),
-    rule_text="escape sets over the resolved call graph with class-code facts, call shapes decided by abstract execution of the callee (keyword sets, sentinels, values); symbolic path facts (interval facts with transitive difference bounds for block arithmetic, truth facts otherwise) with forward-substituted values, namedtuple components / properties / helper functions read as their definitions",
+    rule_text="escape sets over the resolved call graph with class-code facts, call shapes decided by abstract execution of the callee (keyword sets, sentinels, values); symbolic path facts (interval facts with transitive difference bounds for block arithmetic, truth facts otherwise) with forward-substituted values, namedtuple components / properties / helper functions read as their definitions; concrete evaluation of the expiry step on small tables (the checker's own syntax-tree interpreter over its own values)",
 )
 
 BW = "blockwise."
@@ -1327,6 +1330,85 @@ def _tick_filter(ctx, st, tk, p):
     return ok, detail, truth, (widx if widx is not None else last), anchor
 
 
+def _tick_concrete(ctx, prog, tk):
+    """The expiry step decided by its EFFECT: `_tick` (with everything it calls: `_start_over`, helpers, the timer
+    primitives of the event loop) is run by the kit's concrete evaluator on every table of up to three stored keys x every
+    set of keys used since the previous tick (plus a few larger ones), on an instance whose timer has just fired, and the
+    final state is compared with the specification:
+
+      * self._items is a dict holding exactly the old entries (same value objects) whose key was used;
+      * if entries remain, exactly one timer is pending afterwards, self._timeout is its handle and the set of recently
+        used keys is empty again; if none remain, no timer is pending and self._timeout is None.
+
+    How the sweep is written -- a comprehension, dict(filter(...)), a fresh dict filled in a loop, stale keys computed
+    as `keys() - used` and deleted, pop in a loop over a copy, early returns, chained assignments -- is immaterial:
+    every such spelling is accepted because (and only if) it produces the specified final state on all tables; a
+    spelling that fails on some table is refuted by that table (a genuine counterexample: a run that raises, e.g. a
+    RuntimeError for deleting from the dict that is being iterated, is one too).  Tables in which a key is marked as used
+    but not stored are left out only when the class provably never produces them (every entry point, run concretely
+    on all states over two keys, preserves `used <= stored`); otherwise the step must cope with them.
+    -> False when the code is outside the evaluator's vocabulary (the caller then decides on symbolic paths)."""
+    cls = tk.cls
+    if cls is None:
+        return False
+    try:
+        inv, why = recent_subset_invariant(prog, cls)
+        runs = [run_tick(prog, cls, tk, stored, recent) for stored, recent in tick_tables(with_foreign=not inv)]
+        for r in runs:
+            for h in r.pending:
+                if not isinstance(h.callback, CMethod):
+                    raise CUnsupported("a timer callback that is not a bound method")
+    except CUnsupported as u:
+        ctx.note("TimeoutDict._tick decided on symbolic paths (concrete evaluation: %s)" % u)
+        return False
+    ctx.note("TimeoutDict._tick decided by concrete evaluation on %d tables (%s)" % (len(runs), "used <= stored is an invariant of the class" if inv else "including keys marked as used that are not stored: " + str(why)))
+
+    def ks(keys):
+        return "{%s}" % ", ".join("k%d" % k[1] for k in sorted(keys))
+
+    verdicts = {"filter": None, "rearm": None, "kept": None, "idle": None}
+
+    def fail(what, r, node, detail):
+        if verdicts[what] is None:
+            verdicts[what] = (node if node is not None else tk.node, "with %s: %s" % (r.describe(), detail))
+
+    anchor = next((r.first_change for r in runs if r.first_change is not None), None)
+    for r in runs:
+        expected = {k: v for k, v in r.items0.items() if k in r.recent0}
+        node = r.first_change or anchor
+        if r.raised is not None:
+            fail("filter", r, node, "raises %s" % type(r.raised).__name__)
+            continue
+        if not isinstance(r.items, dict):
+            fail("filter", r, node, "self._items is no dictionary afterwards")
+            continue
+        if set(r.items) != set(expected):
+            lost, extra = set(expected) - set(r.items), set(r.items) - set(expected)
+            fail("filter", r, node, "; ".join(x for x in ("drops %s" % ks(lost) if lost else "", "keeps %s" % ks(extra) if extra else "") if x))
+        elif any(r.items[k] is not expected[k] for k in expected):
+            fail("filter", r, node, "an entry no longer holds the stored value")
+        tnode = r.last_timer_stmt or anchor
+        if r.items:
+            if len(r.pending) != 1:
+                fail("rearm", r, tnode, "%d timers pending although entries remain" % len(r.pending))
+            elif not (r.timeout is r.pending[0] and isinstance(r.recent, set) and not r.recent):
+                fail("kept", r, tnode, "self._timeout is not the pending timer's handle" if r.timeout is not r.pending[0] else "the set of recently used keys is not empty again")
+        else:
+            if r.pending:
+                fail("rearm", r, tnode, "a timer stays pending although nothing remains")
+            if r.timeout is not None:
+                fail("idle", r, tnode, "self._timeout is not None")
+    for what, desc, construct in (
+        ("filter", "_tick keeps exactly the keys used since the previous tick", "TimeoutDict._tick filter"),
+        ("rearm", "_tick re-arms iff items remain (after filtering)", "TimeoutDict._tick re-arm"),
+        ("kept", "a re-armed timer is not marked as stopped afterwards", "TimeoutDict._tick re-arm kept"),
+        ("idle", "otherwise the timer is marked as not running", "TimeoutDict._tick idle"),
+    ):
+        v = verdicts[what]
+        ctx.ob(desc, v is None, tk, v[0] if v else (anchor or tk.node), detail=v[1] if v else None, construct=construct)
+    return True
+
+
 @R.clause("C06.g", "TimeoutDict: refreshed on get and set, expiry keeps exactly the recently used keys; lifetime is MAX_TRANSMIT_WAIT")
 def g(ctx):
     prog = ctx.prog
@@ -1416,6 +1498,13 @@ def g(ctx):
     ag.flush()
     # _tick: new items = the old items whose key was used since the previous tick; re-arm iff any remain
     tk = prog.func(td + "_tick")
+    if not _tick_concrete(ctx, prog, tk):
+        _tick_symbolic(ctx, prog, tk)
+    _lifetimes(ctx, prog, td)
+
+
+def _tick_symbolic(ctx, prog, tk):
+    """the expiry step decided on symbolic paths: only for spellings the concrete evaluator does not cover"""
     st = SymExec(prog, tk, include_exc=False)
     ag = _Agg(ctx, tk)
     ag.saw(st, st.paths())
@@ -1442,7 +1531,9 @@ def g(ctx):
                 ag.add("otherwise the timer is marked as not running", bool(idle), idle[0].node if idle else anchor, construct="TimeoutDict._tick idle", detail=_where(st, f_))
     ag.floor("normal paths of TimeoutDict._tick", n_paths, 2)
     ag.flush()
-    # lifetimes
+
+
+def _lifetimes(ctx, prog, td):
     for short, field in ((BW + "Block1Spool.__init__", "_assemblies"), (BW + "Block2Cache.__init__", "_completes")):
         fi = prog.func(short)
         si = SymExec(prog, fi, include_exc=False)
@@ -1495,6 +1586,10 @@ R.seed("C06.f", F_B, "            self._completes[block_key] = assembled\n", "",
 R.seed("C06.g", F_T, "        result = self._items[key]\n        self._accessed(key)\n", "        result = self._items[key]\n", "reads do not refresh")
 R.seed("C06.g", F_T, "            k: v for (k, v) in self._items.items() if k in self._recently_accessed", "            k: v for (k, v) in self._items.items() if True", "nothing ever expires")
 R.seed("C06.g", F_B, "        self._assemblies = TimeoutDict(numbers.TransportTuning().MAX_TRANSMIT_WAIT)", "        self._assemblies = TimeoutDict(numbers.TransportTuning().ACK_TIMEOUT)", "state lives 2 s")
+R.seed("C06.g", F_T, "        self._items = {\n            k: v for (k, v) in self._items.items() if k in self._recently_accessed\n        }\n", "        for k in self._items:\n            if k not in self._recently_accessed:\n                del self._items[k]\n", "stale entries are deleted from the dictionary while it is iterated: RuntimeError in the timer callback, the timer is never re-armed and nothing expires any more")
+R.seed("C06.g", F_T, "        self._items = {\n            k: v for (k, v) in self._items.items() if k in self._recently_accessed\n        }\n", "        for k in self._recently_accessed - self._items.keys():\n            del self._items[k]\n", "the set difference the wrong way round: no stale entry is ever removed")
+R.seed("C06.g", F_T, "        self._items = {\n            k: v for (k, v) in self._items.items() if k in self._recently_accessed\n        }\n", "        for k in self._items.keys() - self._recently_accessed:\n            del self._items[k]\n            break\n", "only one stale entry is removed per period")
+R.seed("C06.g", F_T, "        if self._items:\n            self._start_over()", "        if len(self._items) > 1:\n            self._start_over()", "a single remaining entry does not re-arm the timer: it never expires, and the next access starts a period that forgets nothing")
 R.seed("C06.g", F_T, "        if self._items:\n            self._start_over()", "        if not self._items:\n            self._start_over()", "timer stops while items remain")
 R.seed("C06.g", F_T, "        if self._timeout is None:\n            self._start_over()", "        if self._timeout is not None:\n            self._start_over()", "every access restarts the period and forgets the other keys")
 
